@@ -554,6 +554,7 @@ func c19FixedHistories(c *wk.Case) {
 func c19HistoriesCase(c *wk.Case) {
 	if c.Index == 0 {
 		c19FixedHistories(c)
+		c19FixedKept(c) // round 6 (c19_r6.go)
 		return
 	}
 	r := c.Rng
@@ -563,5 +564,9 @@ func c19HistoriesCase(c *wk.Case) {
 			continue
 		}
 		h.run(r, 3+r.Intn(7))
+	}
+	// round 6: kept results across stores into the arguments and vice versa (c19_r6.go)
+	for k := 0; k < 8; k++ {
+		c19RandKept(c, r)
 	}
 }
